@@ -660,11 +660,79 @@ def rule_basic_epilogue(prog, fixture=False):
     return r
 
 
+# ---------------------------------------------------------------- R-C11-4
+def rule_status_not_overwritten(prog, fixture=False):
+    r = RuleResult("R-C11-4", "a status variable that a function returns is never overwritten inside a loop while it "
+                   "may hold a failure: `ok = step()` in a loop is acceptable only where ok is known to be true (the "
+                   "failure left the loop) - otherwise a later success hides an earlier failure and the command "
+                   "exits 0 with incomplete output", floor=0)
+    for fn in prog.functions.values():
+        if fn.body is None:
+            continue
+        returned = set()
+        for n in fn.walk():
+            if n.get("k") == "ReturnStmt" and n.get("c"):
+                for x in walk(n["c"][0]):
+                    if x.get("k") == "DeclRefExpr" and x.get("dk") == "Var" and (x.get("t") or "").replace("const ", "") in ("bool", "_Bool"):
+                        returned.add(x["d"])
+        for d in returned:
+            sites = []
+            for n in fn.walk():
+                if n.get("k") == "BinaryOperator" and n.get("op") == "=" and (strip_all(n["c"][0]) or {}).get("d") == d:
+                    if any(a.get("k") in ("ForStmt", "WhileStmt", "DoStmt", "CXXForRangeStmt") for a in fn.ancestors(n)):
+                        rhs = n["c"][1]
+                        if folded(rhs) is None and not any(x.get("k") == "DeclRefExpr" and x.get("d") == d for x in walk(rhs)):
+                            sites.append(n)
+            if not sites:
+                continue
+
+            def transfer(x, d=d):
+                if x.get("k") == "DeclStmt":
+                    for v in x.get("c", []):
+                        if v.get("k") == "VarDecl" and v.get("d") == d:
+                            return bool(v.get("c")) and folded(v["c"][0]) == 1
+                if x.get("k") == "VarDecl" and x.get("d") == d:
+                    return bool(x.get("c")) and folded(x["c"][0]) == 1
+                if x.get("k") in ("BinaryOperator", "CompoundAssignOperator") and x.get("op") in flow.ASSIGN_OPS and \
+                        (strip_all(x["c"][0]) or {}).get("d") == d:
+                    return x.get("op") == "=" and folded(x["c"][1]) == 1
+                return None
+            cfg = fn.cfg
+
+            def edge_gen(p_, s_, d=d):
+                b = cfg.blocks[p_]
+                if b.get("cond") is None or len(cfg.succ[p_]) != 2 or cfg.succ[p_][0] == cfg.succ[p_][1]:
+                    return False
+                cond = fn.nodes.get(b["cond"])
+                outcome = cfg.succ[p_][0] == s_
+                for f in flow.atomise(cond, outcome):
+                    if f[0] == "T" and f[2] is True and (strip_all(f[1]) or {}).get("d") == d:
+                        return True
+                return False
+            at = flow.must_hold_at(fn, transfer, edge_gen)
+            for i, n in enumerate(sites):
+                key = "%s::%s::%s=#%d" % (fn.relfile(), fn.qn, (strip_all(n["c"][0]) or {}).get("n"), i + 1)
+                ok = at(n)
+                if ok is None:
+                    continue
+                r.add(key, fn.loc(n), bool(ok), "the variable is known to be true here" if ok else
+                      "`%s` overwrites the status in a loop where an earlier pass may have stored a failure: only the "
+                      "last pass decides the result, so a failed step followed by a successful one is reported as "
+                      "success" % show(n)[:60])
+    return r
+
+
 def run(ctx):
     dfs = ctx.prog("dfs", "N")
     basic = ctx.prog("basic", "N")
     return [rule_dfs_epilogue(dfs), rule_cout_state_census(dfs), rule_ofstream_typestate(dfs),
-            rule_basic_epilogue(basic)]
+            rule_basic_epilogue(basic), rule_status_not_overwritten(dfs), _basic_status(basic)]
+
+
+def _basic_status(basic):
+    r = rule_status_not_overwritten(basic)
+    r.rule = "R-C11-4/basic"
+    return r
 
 
 SELFTESTS = [
@@ -675,4 +743,5 @@ SELFTESTS = [
     (rule_cout_state_census, ["c11_ref_bad.cc"], ["c11_ref_good.cc"], "os_.clear"),
     (rule_cout_state_census, ["c11_ref_bad.cc"], ["c11_ref_good.cc"], "stream-on-borrowed-buffer"),
     (rule_cout_state_census, ["c11_ref_bad.cc"], ["c11_ref_good.cc"], "insert-streambuf"),
+    (rule_status_not_overwritten, ["c11_loop_bad.cc"], ["c11_loop_good.cc"], "ok=#1"),
 ]
